@@ -13,6 +13,8 @@ import KoordVerif.Proofs.C06ExtAmpBind
 import KoordVerif.Proofs.C06ExtNumaDrawn
 import KoordVerif.Proofs.C06ExtEvents
 import KoordVerif.Proofs.C06ExtGoc
+import KoordVerif.Proofs.C06ExtNrt
+import KoordVerif.Proofs.C06ExtRestore
 /-
 C06 — CPU and NUMA allocations are exact, disjoint and within capacity.
 
@@ -914,5 +916,108 @@ theorem goc_no_lost_update (fast : Bool) (sched : List Nat) :
 theorem goc_blind_store_counterexample :
     ¬ (∀ r ∈ (grun true false [0, 1, 0, 0, 1, 1]).recs, (grun true false [0, 1, 0, 0, 1, 1]).map = some r.1) := by
   decide
+
+
+/-! ## Extension round 4 — NodeResourceTopology → zone capacities; reservation restore arithmetic -/
+
+/-- **zone_capacity_excludes_reserved_any_ids**: for EVERY topology, reserved set and NUMA id `nd` (ids need not be
+    0..n-1, nor below `NumNodes`): the cpu amount `NewTopologyOptions` stores for zone `nd` is the reported amount minus
+    1000 per reserved CPU whose NUMA id is `nd`; in particular a zone that reports all CPUs of its id is left with
+    exactly the CPUs of that id that are not reserved - the amount that can ever be allocated there. -/
+theorem zone_capacity_excludes_reserved_any_ids (topo : List CpuI) (reserved : List Nat) (nd : Nat) :
+    (∀ raw : Int, raw ≠ 0 → zoneCPUCapacity topo reserved nd raw =
+        raw - 1000 * ((topo.filter (fun i => i.node == nd && reserved.contains i.cpu)).length : Int)) ∧
+    zoneCPUCapacity topo reserved nd (1000 * ((topo.filter (fun i => i.node == nd)).length : Int)) =
+      1000 * ((topo.filter (fun i => i.node == nd && !reserved.contains i.cpu)).length : Int) :=
+  ⟨fun raw h => by simp [zoneCPUCapacity, reservedOnNode, h], zoneCap_all_reported topo reserved nd⟩
+
+/-- the reserved set is the union of the four sources of the report; the system-QoS cpuset counts only when it is
+    exclusive; a static pod counts only when kubelet manages it, it has a uid and a well-formed non-empty cpuset. -/
+theorem nrt_reserved_sources (static : List StaticPod) (kubelet nodeRsv sysq : List Nat) (sysqExcl : Bool) (c : Nat) :
+    c ∈ nrtReserved static kubelet nodeRsv sysq sysqExcl ↔
+      c ∈ podAllocsCPUs static ∨ c ∈ kubelet ∨ c ∈ nodeRsv ∨ (sysqExcl = true ∧ c ∈ sysq) :=
+  mem_nrtReserved static kubelet nodeRsv sysq sysqExcl c
+
+/-- the counter slice indexed by NUMA id and sized `NumNodes` is NOT that function: two NUMA nodes with ids 0 and 2,
+    four CPUs each, CPUs 4 and 5 (on id 2) reserved - zone 2 keeps 4000 where only 2000 can ever be allocated; it
+    agrees with the rescan only while every id is below `NumNodes`. -/
+theorem zone_capacity_indexed_counter_counterexample :
+    ¬ (∀ (topo : List CpuI) (reserved : List Nat) (nd : Nat) (raw : Int),
+        zoneCPUCapacityIndexed topo reserved (nrtNumNodes topo) nd raw = zoneCPUCapacity topo reserved nd raw) := by
+  intro h
+  have := h ((List.range 8).map fun c => { cpu := c, core := c / 2, node := c / 4 * 2, socket := 0 }) [4, 5] 2 4000
+  revert this; decide
+
+theorem zone_capacity_indexed_agrees_below (topo : List CpuI) (reserved : List Nat) (numNodes nd : Nat) (raw : Int)
+    (h : nd < numNodes) :
+    zoneCPUCapacityIndexed topo reserved numNodes nd raw = zoneCPUCapacity topo reserved nd raw :=
+  indexed_eq_of_lt topo reserved numNodes nd raw h
+
+-- non-vacuity: ids {0, 2}, kubelet reserves CPU 4, a static pod CPU 5, a non-exclusive system-QoS set CPU 6
+example :
+    let topo : List CpuI := (List.range 8).map fun c => { cpu := c, core := c / 2, node := c / 4 * 2, socket := 0 }
+    let reserved := nrtReserved [{ managed := true, hasUID := true, cpusOK := true, cpus := [5] }] [4] [] [6] false
+    reserved = [5, 4] ∧
+    nrtCaps topo reserved [{ kind := 0, id := 2, cpu := some 4000, mem := some 8000 },
+                           { kind := 1, id := 1, cpu := some 4000, mem := none },
+                           { kind := 0, id := 0, cpu := some 4000, mem := none }] = [(0, 4000), (32, 2000), (33, 8000)] ∧
+    nrtNumNodes topo = 2 := by decide
+
+/-- **restore_never_reports_held_amount_free** (the code as it is: SIGNED remainder).  On a NUMA cell let `X` be what
+    pods owning no reservation hold, `n` the nominated reservation (r = its reserve pod's record, o = its owners'
+    records - `o` may exceed `r` by any amount), `um` / `mo` the other reservations handed to RestoreReservation as
+    unmatched / matched.  If no OTHER reservation is over-used on the cell, then what getAvailableNUMANodeResources
+    reports free for a pod nominated to `n` plus what live (non-reserve) pods hold is at most the capacity: cpu that
+    live pods hold is never reported free.  Second part: the same for the node path (no nominated reservation). -/
+theorem restore_never_reports_held_amount_free (cap X : Int) (um mo : List RC) :
+    (∀ n : RC, (∀ x ∈ um, 0 ≤ x.o ∧ x.o ≤ x.r) → (∀ x ∈ um, RCWF x) → (∀ x ∈ mo, x.o ≤ x.r) →
+        heldLive X um mo (some n) ≤ cap →
+        reportedFree cap (ledgerTotal X um mo (some n)) (reuseRsvCell false um (n :: mo) n) +
+          heldLive X um mo (some n) ≤ cap) ∧
+    ((∀ x ∈ um, 0 ≤ x.o ∧ x.o ≤ x.r) → (∀ x ∈ um, RCWF x) → (∀ x ∈ mo, x.o ≤ x.r) →
+        heldLive X um mo none ≤ cap →
+        reportedFree cap (ledgerTotal X um mo none) (reuseNodeCell false um mo) + heldLive X um mo none ≤ cap) :=
+  ⟨fun n h1 h2 h3 h4 => restore_rsv_path cap X um mo n h1 h2 h3 h4,
+   fun h1 h2 h3 h4 => restore_node_path cap X um mo h1 h2 h3 h4⟩
+
+/-- the position of the nominated reservation in the matched list is irrelevant (Go map iteration). -/
+theorem restore_reusable_any_order (clamp : Bool) (um pre post : List RC) (n : RC) :
+    reuseRsvCell clamp um (pre ++ n :: post) n = reuseRsvCell clamp um (n :: (pre ++ post)) n :=
+  reuseRsvCell_perm clamp um pre post n
+
+/-- the CLAMPED remainder (subtractAllocated(…, true) in RestoreReservation) refutes the statement with nothing but
+    the nominated reservation on the node: capacity 8000, R = 4000, its owner A holds 6000 - 4000 are reported free
+    for a second owner B, live pods then hold 10000 of 8000. -/
+theorem restore_clamped_counterexample :
+    ¬ (∀ (cap X : Int) (n : RC), 0 ≤ X → 0 ≤ n.o → 0 ≤ n.r → heldLive X [] [] (some n) ≤ cap →
+        reportedFree cap (ledgerTotal X [] [] (some n)) (reuseRsvCell true [] [n] n) + heldLive X [] [] (some n) ≤ cap) := by
+  intro h
+  have := h 8000 0 { r := 4000, o := 6000 } (by decide) (by decide) (by decide) (by decide)
+  revert this; decide
+
+/-- … and on the executable model of the whole path (ledger → RestoreReservation → tryAllocateFromReusable →
+    Allocate): one NUMA node with 8 CPUs, R (uid 1) 4000, owner A (uid 2) 6000; B (4000) nominated to R is refused by
+    the code as it is and admitted by the clamped shape. -/
+theorem restore_clamped_counterexample_exec :
+    let cfg : NodeCfg := nrtCfg ((List.range 8).map fun c => { cpu := c, core := c / 2, node := 0, socket := 0 }) true []
+                           [{ kind := 0, id := 0, cpu := some 8000, mem := none }]
+    let L : Ledger := run [.upd { uid := 1, excl := 0, cpus := [], numa := [(0, 4000)] },
+                           .upd { uid := 2, excl := 0, cpus := [], numa := [(0, 6000)] }]
+    let q : RsvReq := { uid := 3, hint := [0], reqs := [(0, 4000)], matched := [{ uid := 1, owners := [2] }],
+                        unmatched := [], nominated := some 1 }
+    reserveRsv false cfg L q = none ∧
+    (reserveRsv true cfg L q).map (·.numa) = some [(0, 4000)] := by decide
+
+/-- the hypothesis "no OTHER reservation is over-used" cannot be dropped for the code as it is: an UNMATCHED
+    reservation R = 4000 whose owner holds 6000 on an 8000 cell gives back 6000, the cell is charged 4000 and 4000
+    are reported free to a stranger while live pods hold 6000 (reproduced on the implementation with
+    VERIF_C06_RSVOTHER=1: fingerprint C06:rsv-live-over-capacity). -/
+theorem restore_overused_other_counterexample :
+    ¬ (∀ (cap X : Int) (um : List RC), 0 ≤ X → (∀ x ∈ um, 0 ≤ x.o ∧ 0 ≤ x.r ∧ RCWF x) → heldLive X um [] none ≤ cap →
+        reportedFree cap (ledgerTotal X um [] none) (reuseNodeCell false um []) + heldLive X um [] none ≤ cap) := by
+  intro h
+  have := h 8000 0 [{ r := 4000, o := 6000 }] (by decide)
+    (by intro x hx; simp at hx; subst hx; exact ⟨by decide, by decide, Or.inl rfl⟩) (by decide)
+  revert this; decide
 
 end KoordVerif.C06
